@@ -4,14 +4,25 @@
    validate_cbor_from_slice on the rendered schema and document together with the
    verdict the real code returned.  The specification's verdict is
    CddlSem!Expected; events never block the trace.                              *)
-EXTENDS CddlSem, Json, IOUtils
+EXTENDS CddlSem, Cbor, Json, IOUtils
 CONSTANT KnownDev
 Rec == ndJsonDeserialize(IOEnv.TRACE)
 VARIABLE l
 Str(b) == IF b THEN "T" ELSE "F"
+RECURSIVE VEqMaps(_,_)
+VEqMaps(a, b) ==
+  a.k = b.k /\
+  CASE a.k = "map" -> Len(a.pairs) = Len(b.pairs) /\ \A i \in 1..Len(a.pairs) : VEqMaps(a.pairs[i].key, b.pairs[i].key) /\ VEqMaps(a.pairs[i].val, b.pairs[i].val)
+    [] a.k = "arr" -> Len(a.items) = Len(b.items) /\ \A i \in 1..Len(a.items) : VEqMaps(a.items[i], b.items[i])
+    [] a.k = "tag" -> a.tn = b.tn /\ VEqMaps(a.c, b.c)
+    [] OTHER -> VEq(a, b)
+\* an event may carry the CBOR bytes that were validated (non-preferred encodings, C02 encoding independence): they must
+\* decode - by the specification's own decoder - to the value the oracle judges; otherwise the driver's encoder is at fault
+BytesDenote(e) == ("bytes" \notin DOMAIN e) \/ (LET r == Result({}, e.bytes) IN r.ok /\ VEqMaps(r.v, e.val))
 Judge(e) ==
   LET x == Expected(e.fmt, {}, e.rules, e.val)  o == Str(e.ok) IN
-  IF x = "E" THEN "either"
+  IF ~BytesDenote(e) THEN "unrelated"
+  ELSE IF x = "E" THEN "either"
   ELSE IF x = o THEN "ok"
   ELSE IF KnownDev # {} /\ Expected(e.fmt, KnownDev, e.rules, e.val) \in {o, "E"} THEN
        (IF \E d \in KnownDev : Expected(e.fmt, {d}, e.rules, e.val) \in {o, "E"}
